@@ -35,6 +35,7 @@ type Obligation struct {
 	replay        *Replay
 	Output        string
 	Script        []string
+	CapMs         int    // upper bound for the portfolio attempt (known-undecided, non-binding obligations in the thorough tier)
 	SolverErr     string // the primary solver rejected the query text (a defect of the generator, not of the code)
 }
 
